@@ -162,7 +162,7 @@ TEMPLATES = [
 ]
 
 
-def run_schedule(lib, B, t, bs, debug=False):
+def run_schedule(lib, B, t, bs, debug=False, seconds=0.5):
     ast, points = TEMPLATES[t]
     bmap = {}
     for kind, b in zip(points, bs):
@@ -207,7 +207,10 @@ def run_schedule(lib, B, t, bs, debug=False):
     if 'fn' in bmap:
         spec = False
     text = F.render(ast)
-    rec, raised, timed = guarded_parse(p, text)
+    rec, raised, timed = guarded_parse(p, text, seconds)
+    if timed and seconds < 5:
+        # a stalled process is not a formula that does not return: once more, from scratch, with ten times the budget
+        return run_schedule(lib, B, t, bs, debug, seconds=5.0)
     return observation('fault', text, rec, raised, timed, spec=spec, ast=ast, env=env,
                        extra={'template': t, 'behaviours': [describe(B[b]) for b in bs[:len(points)]], 'debug': debug})
 
@@ -257,6 +260,8 @@ def main(tier, replay=None):
     quick = tier == 'quick'
     rng = random.Random(run.seed)
     B = behaviours(lib)
+    from hotxlfp.formulas import error as _err
+    error_value = _err.VALUE
     if replay:
         c = json.load(open(replay))['case']
         i = c['in']
@@ -304,10 +309,65 @@ def main(tier, replay=None):
     else:
         soups += [''.join(c) for c in itertools.product(LEX, repeat=3)]
         soups += [''.join(rng.choice(LEX) for _ in range(rng.randint(4, 12))) for _ in range(100000)]
-    for s in soups:
+    soups += ['', ' ', '\t', '\n']
+    for i, s in enumerate(soups):
         rec, raised, timed = guarded_parse(p, s)
+        if (i % 5 == 0 or s.strip() == '') and isinstance(rec, dict):
+            # the host does what it likes with the record it was given; the next evaluation returns a record of its own
+            rec['error'] = '(tampered)'
+            rec['result'] = error_value
+            rec['cell'] = 'A2'
+            rec, raised, timed = guarded_parse(p if i % 10 else mk_parser(lib), s)
         obs.append(observation('soup', s, rec, raised, timed))
     run.extra['token_soups'] = len(obs) - n0
+    # --- listeners that change the subscriptions of the event they are being called for
+    n0 = len(obs)
+    def resub(variant, text, seconds):
+        out = []
+        q = lib.Parser()
+        q.set_variable('va', 3)
+        ev = ('callCellValue', 'callRangeValue', 'callVariable', 'callFunction')
+
+        def grow(*a):
+            a[-1](5)
+            if variant == 0:
+                for e in ev:
+                    q.on(e, grow)
+            elif variant == 1:
+                for e in ev:
+                    q.once(e, grow)
+            elif variant == 2:
+                for e in ev:
+                    q.on(e, lambda *b: b[-1](7))
+            elif variant == 3:
+                for e in ev:
+                    q.off(e, grow)
+                    q.on(e, grow)
+            elif variant == 4:
+                for e in ev:
+                    q.off(e)
+            else:
+                for e in ev:
+                    q.on(e, grow)
+                    q.once(e, grow)
+                    q.off(e, grow)
+                    q.on(e, grow)
+        for e in ev:
+            q.on(e, grow)
+        for rep in range(3):
+            rec, raised, timed = guarded_parse(q, text, seconds)
+            out.append(observation('resubscribe', text, rec, raised, timed, extra={'variant': variant, 'rep': rep}))
+            if timed:
+                break
+        return out
+
+    for variant in range(6):
+        for text in ('A1+1', 'SUM(A1,B2)*C3', 'A1:B2', 'va+A1', 'SUM(1,2)'):
+            got = resub(variant, text, 0.5)
+            if any(o['timed_out'] for o in got):
+                got = resub(variant, text, 5.0)     # (a stalled process is not a formula that does not return)
+            obs += got
+    run.extra['listeners_changing_subscriptions'] = len(obs) - n0
     # --- every documented function x arity x pool
     n0 = len(obs)
     pool = pool_values(lib)
@@ -350,6 +410,9 @@ def main(tier, replay=None):
         texts += ['(' * n + '1' + ')' * n, '(' * n + '1', '-' * n + '1', '1+' * n + '1', '1' * n, 'A' * n + '1',
                   'SUM(' + ','.join(['1'] * n) + ')', '{' + ';'.join(['1'] * n) + '}', 'SUM(' * n + '1' + ')' * n,
                   '"a"&' * n + '"b"', '#' * n, '1' + '%' * n, 'IF(' * n + '1']
+    # results longer than any limit a spreadsheet has for a cell
+    texts += ['"' + 'a' * 33000 + '"', '"' + 'ab' * 20000 + '"&"' + 'cd' * 20000 + '"', "'" + 'x y' * 30000 + "'",
+              'CONCATENATE("' + 'q' * 20000 + '","' + 'r' * 20000 + '")', '"' + 'é' * 40000 + '"&1']
     texts += ['"' + 'a b ' * 3000 + '"', ' ' * 9000, ' ' * 9000 + '1', 'SUM(' + ' ' * 9000 + '1)', '"x"&' * 3000 + '"y"']
     for i, (out, raised, timed) in enumerate(isolated_batch(texts)):
         o = observation('text', texts[i], None, raised, timed)
@@ -360,7 +423,7 @@ def main(tier, replay=None):
     # confirm timeouts deterministically
     for o in obs:
         if o['timed_out']:
-            if o['kind'] in ('fault', 'text'):
+            if o['kind'] in ('fault', 'text', 'resubscribe'):
                 continue
             def mk():
                 q = mk_parser(lib)
